@@ -1,5 +1,5 @@
 \* replayed exhaustively: 1..2 files x 0..1 items + PBind_Cover1: one file x 0..2 items
 CONSTANTS MaxFiles = 2 MaxItems = 1 Starts = {300} ByteLens = {0, 2} EntryAddrs = {4660}
-  CpuSegGran <- CSG_Small Forms <- Forms_Both Filters <- F_Small Creators <- Cr_One
+  CpuSegGran <- CSG_Small Forms <- Forms_Both Filters <- F_Small Creators <- Cr_One Quiets <- Q_No Dev <- D_None
 SPECIFICATION CoverSpec
 CHECK_DEADLOCK FALSE
